@@ -227,6 +227,7 @@ EXPECT = {
  'pt_validate_path_component': 'if !self.cfg.do_import { return Ok(()); } validate_path_component(name)',
  'is_safe_inode': 'matches!(mode & libc::S_IFMT, libc::S_IFREG | libc::S_IFDIR)',
  'open_file_restricted': 'let flags = libc::O_NOFOLLOW | libc::O_CLOEXEC | flags; openat(dir, pathname, flags, mode)',
+ 'create_file_excl': 'match openat(dir, pathname, flags | libc::O_CREAT | libc::O_EXCL, mode) { Ok(file) => Ok(Some(file)), Err(err) => { if err.kind() == io::ErrorKind::AlreadyExists { if (flags & libc::O_EXCL) != 0 { return Err(err); } return Ok(None); } Err(err) } }',
  'reopen_fd_through_proc': 'let name = CString::new(format!("{}", fd.as_raw_fd()).as_str())?; openat( proc_self_fd, &name, flags & !libc::O_NOFOLLOW & !libc::O_CREAT, 0, )',
 }
 
@@ -248,6 +249,7 @@ def translate(repo):
     pmod = read(repo, 'src/passthrough/mod.rs')
     shape('pt_validate_path_component', pmod, 'validate_path_component', 'src/passthrough/mod.rs')
     shape('open_file_restricted', pmod, 'open_file_restricted', 'src/passthrough/mod.rs')
+    shape('create_file_excl', pmod, 'create_file_excl', 'src/passthrough/mod.rs')
     putil = read(repo, 'src/passthrough/util.rs')
     shape('is_safe_inode', putil, 'is_safe_inode', 'src/passthrough/util.rs')
     shape('reopen_fd_through_proc', putil, 'reopen_fd_through_proc', 'src/passthrough/util.rs')
@@ -278,6 +280,14 @@ def translate(repo):
         if g < 0 or c < 0: raise TranslateError('fn %s: get_file()/set_creds() not found' % fn)
         order[fn] = g < c
     t['descriptor_before_set_creds'] = order
+    # C05: create() reopens an existing file with the request's flags, unmodified (open_inode applies the
+    # documented writeback adjustment itself), and creates with get_writeback_open_flags(args.flags)
+    ms = [m for m in re.finditer(r'\bfn\s+create\s*\(', psync)]
+    b0 = psync.find('{', match_close(psync, ms[0].end() - 1, '(', ')'))
+    cbody = norm(psync[b0:match_close(psync, b0)])
+    t['create_flag_use'] = (len(re.findall(r'self\.open_inode\(entry\.inode, args\.flags as i32\)', cbody)) == 1
+                            and len(re.findall(r'open_inode\(', cbody)) == 1
+                            and 'let flags = self.get_writeback_open_flags(args.flags as i32); Self::create_file_excl(&dir_file, name, flags, args.mode & !(args.umask & 0o777))?' in cbody)
     t['shapes'] = shapes
     vsync = read(repo, 'src/api/vfs/sync_io.rs')
     t['vfs'] = parse_impl(vsync, r'\bimpl\s+FileSystem\s+for\s+Vfs\s*\{', 'impl FileSystem for Vfs')
@@ -301,6 +311,8 @@ def emit_coq(t):
         o.append('Definition shape_%s : bool := %s.' % (k, coq_bool(t[k])))
     o.append('(* is the parent descriptor obtained before set_creds() in mkdir/mknod/symlink/create? *)')
     o.append('Definition shape_descriptor_before_set_creds : bool := %s.' % coq_bool(all(t['descriptor_before_set_creds'].values())))
+    o.append('(* does create() pass the request flags unmodified to open_inode / the writeback-adjusted ones to create_file_excl? *)')
+    o.append('Definition shape_create_flag_use : bool := %s.' % coq_bool(t['create_flag_use']))
     o.append('')
     o.append('Inductive vkind := VFull | VFullIfStandalone | VSlash.')
     o.append('(* one validation: argument name, kind, statement position *)')
